@@ -48,7 +48,10 @@ var CFCorpus = []string{
 	"[Sw2[If[Y]][E]]",                   // case body ending in yielding if (fixed 8b31600)
 	"[TySwBind[Y If[Y]][E]]",            //
 	"[While[Sw2[Y Br][Co]] E]",          // break in switch inside monadic loop, continue from a case
-	"[ForInf[Sw2[Y Br][Rt]]]",           //
+	"[ForInf[Sw2[Y Br][Rt]]]",
+	"[While[Sw2[Y Br][Co] E] E]",        // continue passes through a switch that also has a bound break; the rest of the body is skipped
+	"[ForPostY[Sw3[Y Br][Co][E] E] E]",  //
+	"[While[TySw[Y If[Br]][Co] Y] E]",   //           //
 	"[While[For3[If[Br] Y] E]]",         // nested loops, inner break
 	"[While[While[Y Co] If[Br] E]]",     //
 	"[YFLit[While[Y If[Rt]]] E]",        // return inside a delegate literal
